@@ -352,7 +352,7 @@ def build_jobs(tier, seed):
     configs = prepare(tier, seed, root)
     CTX["refs"] = None
     nh = 640 if tier == "quick" else 12000
-    per = 10 if tier == "quick" else 250
+    per = 10 if tier == "quick" else 40
     jobs = [{"first": f, "n": min(per, nh - f), "seed": seed, "tier": tier} for f in range(0, nh, per)]
     rng = random.Random(derive_seed(seed, PROP, "iso"))
     ids = [c["id"] for c in configs]
@@ -476,4 +476,4 @@ def check(tier, seed, fingerprint, t0):
     return flow.standard_check(
         PROP, tier, seed, fingerprint, t0, archs=archs_for(tier), worker_init=worker_init, build_jobs=build_jobs,
         run_job=run_job, shrink_job=shrink_job, rule=RULE, assumptions=ASSUMPTIONS, components=COMPONENTS,
-        determinism=(build_det_jobs, det_job))
+        determinism=(build_det_jobs, det_job), wall_per_job=2400)
